@@ -451,3 +451,5 @@ class C05(Check):
 
 
 CHECK = C05()
+# scope added in later rounds, kept in the evidence text
+CHECK.rule += ' Rows with six tags; asm-format with two and three input files into one output (file and stdout).'
